@@ -11,5 +11,5 @@ INIT Init
 NEXT Next
 VIEW absView
 INVARIANTS TypeOK TrustedWithinParent ViewIsHistory LookupsInverse SiblingIsolation
-PROPERTIES OldHandleUndisturbed ForkOutIsNewHandle
+PROPERTIES OldHandleUndisturbed ForkOutIsNewHandle RepeatNeverInPlace
 CHECK_DEADLOCK FALSE
